@@ -481,6 +481,15 @@ def run(spec, ctx):
     elif kind == "random":
         nenv = narrow_env()
         items = ill_items(r)
+        if spec["shard"] % 4 == 0:
+            # every string of the hostile pool (quotes, backslashes, text that looks like an escape) as a name selector, a
+            # comparison operand, a function argument and inside a nested filter, in both quote styles: all well-formed
+            for s_ in gen.NAMES_QUOTE + ["\\\"", "C:\\dir\\\"", "\"\\", "a\\\\\"b", "'\\", "\\'\"", "it's \"q\"", "\\\\", "\u00e9\\\"", "\U0001f600"]:
+                for q_ in ("'", '"'):
+                    lit = Renderer(r, plain=True).string(s_, q_)
+                    for text in ("$[%s]" % lit, "$[?@.a == %s]" % lit, "$[?length(%s) >= 1]" % lit, "$[?count(@[?@ == %s]) == 1]" % lit, "$[?@.a != %s && match(@.b, 'x')]" % lit, "$..[%s, 'k']" % lit):
+                        compile_case(ctx, env, text, True, "string-spellings", "well-formed")
+                        ctx.count("hostile_strings_in_both_quote_styles")
         for i in range(spec["n"]):
             names = r.sample(["a", "b", "c", "d", "k0", "é"], 3)
             fg = gen.FilterGen(r, names, max_depth=spec["depth"])
